@@ -1237,7 +1237,11 @@ func (c *Compiler) writeCopy(node *node, l, r string, depth int) error {
 			}
 			c.wl(lb, "=append(", lb, ",", pfx, nb, ")")
 			c.wl("}")
-			c.wl(l, "=", c.fmtP(node, lb, depth))
+			if depth == 0 {
+				c.wl("*", l, "=", lb)
+			} else {
+				c.wl(l, "=", c.fmtP(node, lb, depth))
+			}
 			c.wl("}")
 		}
 	case typeBasic:
